@@ -58,6 +58,15 @@ MODULES = [
     dict(name='reader', file='reader/mod.rs', header=HDR_IO, rewrites=[
         dict(name='R-mods', pat='mod prefix_iter;\nmod range_iter;\nmod reader_cursor;\n', rep=''),
         dict(name='R-closure-spec:new', pat='.map(|metadata| Reader { metadata, reader })', rep='.map(|metadata: Metadata| -> (r: Reader<R>) ensures r.metadata == metadata && r.reader == reader { Reader { metadata, reader } })'),
+        # the four `into_*_iter` adapters: the closure passed to Result::map gets its result named and the constructor's contract restated
+        dict(name='R-closure-spec:into-prefix', pat='.map(|cursor| PrefixIter::new(cursor, prefix))',
+             rep='.map(|cursor: ReaderCursor<R>| -> (it: PrefixIter<R>) ensures it.cur() == cursor && it.pfx() == prefix@ && it.fresh() { PrefixIter::new(cursor, prefix) })'),
+        dict(name='R-closure-spec:into-rev-prefix', pat='.map(|cursor| RevPrefixIter::new(cursor, prefix))',
+             rep='.map(|cursor: ReaderCursor<R>| -> (it: RevPrefixIter<R>) ensures it.cur() == cursor && it.pfx() == prefix@ && it.fresh() { RevPrefixIter::new(cursor, prefix) })'),
+        dict(name='R-closure-spec:into-range', pat='.map(|cursor| RangeIter::new(cursor, range))',
+             rep='.map(|cursor: ReaderCursor<R>| -> (it: RangeIter<R>) ensures it.cur() == cursor && it.fresh() && it.start() == crate::reader::range_iter::bound_bytes(range.spec_start_bound()) && it.end() == crate::reader::range_iter::bound_bytes(range.spec_end_bound()) { RangeIter::new(cursor, range) })'),
+        dict(name='R-closure-spec:into-rev-range', pat='.map(|cursor| RevRangeIter::new(cursor, range))',
+             rep='.map(|cursor: ReaderCursor<R>| -> (it: RevRangeIter<R>) ensures it.cur() == cursor && it.fresh() && it.start() == crate::reader::range_iter::bound_bytes(range.spec_start_bound()) && it.end() == crate::reader::range_iter::bound_bytes(range.spec_end_bound()) { RevRangeIter::new(cursor, range) })'),
     ]),
     dict(name='reader::reader_cursor', file='reader/reader_cursor.rs', header=HDR_IO, rewrites=[
         dict(name='R-bytes:u64-from', kind='re', pat=r'offset_bytes\.try_into\(\)\.map\(u64::from_(be|le)_bytes\)\.unwrap\(\)', rep=r'crate::vstubs::u64_from_\1_bytes(offset_bytes)', count=8),
@@ -110,6 +119,11 @@ MODULES = [
     ]),
     dict(name='reader::range_iter', file='reader/range_iter.rs', header=HDR_IO, rewrites=[
         dict(name='R-derive:Clone', pat='#[derive(Clone)]\npub struct R', rep='pub struct R', count=2),
+        # R-range-bound: vstd gives the generic `RangeBounds` methods no postcondition; route them through stubs that pin them to vstd's spec projections
+        dict(name='R-range-bound:start', pat='map_bound(range.start_bound(), |bytes| bytes.as_ref().to_vec())',
+             rep='map_bound(crate::vstubs::range_start(&range), |bytes: &A| -> (v: Vec<u8>) ensures v@ == crate::as_ref_view::<A>(bytes) { bytes.as_ref().to_vec() })', count=2),
+        dict(name='R-range-bound:end', pat='map_bound(range.end_bound(), |bytes| bytes.as_ref().to_vec())',
+             rep='map_bound(crate::vstubs::range_end(&range), |bytes: &A| -> (v: Vec<u8>) ensures v@ == crate::as_ref_view::<A>(bytes) { bytes.as_ref().to_vec() })', count=2),
         # R-guard-if: Verus does not end the first reborrow when its bindings are only used in a match guard;
         # `P if g => X, P2 => Y` (P2 the same pattern without guard) becomes `P2 => if g { X } else { Y }`
         dict(name='R-guard-if:fwd', kind='re', pat=r'Some\(\(key, _\)\) if key == start => self\.cursor\.move_on_next\(\)\?,\n\s*Some\(\(key, val\)\) => Some\(\(key, val\)\),',
